@@ -199,5 +199,16 @@ def run_case(case):
             # z = 0 plane: (N,2) points are accepted and mean (x, y, 0)
             agree("(N,2)-input", lambda: obj.is_inside(W[:, :2].copy()), got, clear)
             agree("single(2,)", lambda: obj.is_inside(W[pick[0], :2].copy()), got[pick[0] : pick[0] + 1])
+        # input forms: whole-number points given as an integer array / nested lists of Python ints must be answered like
+        # the same points as floats (no margin needed: the numbers are identical)
+        zc = float(W[0, 2])
+        if zc.is_integer() and (cls is None or planar_input):
+            lo, hi = np.floor(W[:, :2].min(0)).astype(int), np.ceil(W[:, :2].max(0)).astype(int)
+            if np.all(hi - lo <= 64):
+                Wi = np.array([[x, y, int(zc)] for x in range(lo[0], hi[0] + 1) for y in range(lo[1], hi[1] + 1)], dtype=np.int64)
+                reff = np.asarray(obj.is_inside(Wi.astype(float)))
+                agree("int64-points", lambda: obj.is_inside(Wi.copy()), reff)
+                agree("nested-list-of-int", lambda: obj.is_inside(Wi.tolist()), reff)
+                agree("int32-points", lambda: obj.is_inside(Wi.astype(np.int32)), reff)
     rep.sample({"case": case, "points": int(len(W)), "inside": int(want.sum())})
     return rep
